@@ -5,6 +5,9 @@ R-PAREN-SAFE      an expression hook that returns a freshly constructed non-atom
 R-ARGS-PRESERVED  a refactoring hook that rebuilds a call's argument list keeps every argument it does not replace
 R-INVERT-TABLE    the comparison inversion covers all ten operators or leaves the node alone, pairs each with its negation,
                   and is applied only to single comparisons
+R-EXTENT-ALL-NAMES  fix-file-resource-leak: the index of the last statement using a resource is a running extremum over all of its names
+R-CUT-SIDE        sql-parameterization: the literal before the parameter is cut at its last quote, the one after it at its first
+(+ shared: R-NODETYPE, R-IMPORT-REMOVAL-OWNER, R-GLOBAL-REMOVAL-SCOPE, R-REBUILD-KEEPS-ALL)
 """
 from __future__ import annotations
 
@@ -231,10 +234,15 @@ def rule_invert_table(ctx, rep):
         min_instances=3,
     )
     c = ctx.prog.cls(INVERT)
-    inv = c.methods.get("_invert_comparisons")
-    if inv is None:
-        raise AnalysisError("InvertedBooleanCheckTransformer._invert_comparisons vanished")
-    table, default_keeps = operator_mapping(ctx, inv)
+    # the method that carries the operator table is found by what it does, not by its name
+    cands = []
+    for m in c.methods.values():
+        t, dk = operator_mapping(ctx, m)
+        if len([k for k in t if k in NEGATION]) >= 3:
+            cands.append((m, t, dk))
+    if len(cands) != 1:
+        raise AnalysisError(f"InvertedBooleanCheckTransformer: {len(cands)} methods carry a comparison-operator table (1 confirmed by hand)")
+    inv, table, default_keeps = cands[0]
     wrong = {k: v for k, v in table.items() if NEGATION.get(k) != v}
     rep.check("R-INVERT-TABLE", inv.qname, inv.loc(), not wrong and len(table) >= 6, "negation-pairs",
               f"operator table pairs {wrong} — not the logical negation", table=table)
@@ -246,8 +254,13 @@ def rule_invert_table(ctx, rep):
     calls = []
     for m in c.methods.values():
         for n in walk_no_nested(m.node):
-            if isinstance(n, ast.Call) and last_attr(n.func) == "_invert_comparisons":
+            if isinstance(n, ast.Call) and last_attr(n.func) == inv.name and m is not inv:
                 calls.append((m, n))
+    if not calls and inv.name.startswith("leave_"):
+        # the table sits in the hook itself: the arity fact must hold where the table is consulted
+        first = next((n for n in walk_no_nested(inv.node) if isinstance(n, ast.Match) or (isinstance(n, ast.If) and isinstance(n.test, ast.Call) and call_name(n.test) == "isinstance")), None)
+        if first is not None:
+            calls.append((inv, first))
     ok = bool(calls)
     for m, n in calls:
         must = ctx.flow(m).must_at(n)
@@ -259,6 +272,202 @@ def rule_invert_table(ctx, rep):
         ok = ok and single
     rep.check("R-INVERT-TABLE", c.qname, calls[0][0].loc(calls[0][1]) if calls else c.loc(), ok, "single-comparison-only",
               "chained comparisons are inverted element-wise: `not a == b == c` becomes `a != b != c` (not equivalent)")
+
+
+# ----------------------------------------------------------------------------------------------------------------------------------
+# extent of the generated `with` block (fix-file-resource-leak) and delimiter side (sql-parameterization)
+
+RESOURCE_MOD = "core_codemods.file_resource_leak"
+SQL_T = "core_codemods.sql_parameterization.SQLQueryParameterizationTransformer"
+
+
+def _parents_of(fn):
+    pm = {}
+    for p in ast.walk(fn.node):
+        for c in ast.iter_child_nodes(p):
+            pm[id(c)] = p
+    return pm
+
+
+def rule_extent_all_names(ctx, rep):
+    rep.rule(
+        "R-EXTENT-ALL-NAMES",
+        "in fix-file-resource-leak, a function that walks the accesses (`find_accesses`) of several names of one resource and returns "
+        "the index of the last statement using it keeps a *running* result: every store to the returned variable inside a loop reads "
+        "its previous value (in the stored expression or in a guard around the store), or the result is one `max(...)` over all of "
+        "them; a store that overwrites it per name makes the last alias decide the extent of the `with` block, and a later use of an "
+        "earlier name runs on the closed file",
+        min_instances=1,
+    )
+    n = 0
+    for fn in ctx.prog.live_functions():
+        if fn.module.name != RESOURCE_MOD or fn.parent is not None:
+            continue
+        if not any(isinstance(c, ast.Call) and last_attr(c.func) == "find_accesses" for c in walk_no_nested(fn.node)):
+            continue
+        loops = [l for l in walk_no_nested(fn.node) if isinstance(l, (ast.For, ast.While))]
+        rets = [r for r in walk_no_nested(fn.node) if isinstance(r, ast.Return) and r.value is not None]
+        if not loops or not rets:
+            continue
+        pm = _parents_of(fn)
+
+        def inside_loop(node):
+            cur = pm.get(id(node))
+            out = []
+            while cur is not None and cur is not fn.node:
+                if isinstance(cur, (ast.For, ast.While)):
+                    out.append(cur)
+                cur = pm.get(id(cur))
+            return out
+
+        for r in rets:
+            if inside_loop(r):
+                continue  # first-match search, not an accumulation
+            rv = r.value
+            if isinstance(rv, ast.Call) and call_name(rv) in ("max", "min"):
+                n += 1
+                rep.instance("R-EXTENT-ALL-NAMES", fn.qname, fn.loc(r), True, detail="one extremum over all candidates")
+                continue
+            if not isinstance(rv, ast.Name):
+                continue
+            R = rv.id
+            stores = [a for a in walk_no_nested(fn.node) if isinstance(a, (ast.Assign, ast.AugAssign, ast.AnnAssign, ast.NamedExpr))
+                      and any(isinstance(t, ast.Name) and t.id == R for t in (a.targets if isinstance(a, ast.Assign) else [a.target]))]
+            in_loop = [a for a in stores if inside_loop(a)]
+            if not in_loop:
+                continue
+            n += 1
+            for a in in_loop:
+                reads = isinstance(a, ast.AugAssign) or (a.value is not None and R in names_in(a.value))
+                cur = a
+                while not reads and id(cur) in pm and pm[id(cur)] is not fn.node:
+                    par = pm[id(cur)]
+                    if isinstance(par, (ast.If, ast.While, ast.IfExp)) and R in names_in(par.test):
+                        reads = True
+                    cur = par
+                # the loop's own counter is monotone: the last stored value is the largest
+                lp = inside_loop(a)[0]
+                counter = (isinstance(lp, ast.For) and isinstance(lp.iter, ast.Call) and call_name(lp.iter) in ("enumerate", "range")
+                           and isinstance(a, ast.Assign) and isinstance(a.value, ast.Name)
+                           and a.value.id in {x.id for x in ast.walk(lp.target) if isinstance(x, ast.Name)}
+                           and (call_name(lp.iter) == "range" or (isinstance(lp.target, ast.Tuple) and isinstance(lp.target.elts[0], ast.Name) and lp.target.elts[0].id == a.value.id)))
+                rep.check("R-EXTENT-ALL-NAMES", fn.qname, fn.loc(a), reads or counter, f"store:{R}",
+                          f"`{unparse(a)[:70]}` overwrites the accumulated `{R}` inside a loop without consulting its previous value: the "
+                          "result reflects only the last name/access iterated, not the latest use of any of them")
+    if n < 1:
+        raise AnalysisError("no accumulation over find_accesses found in core_codemods.file_resource_leak (anchor vanished)")
+
+
+def _match_selection(ctx, fn: FuncInfo, e: ast.expr, env: dict, depth: int = 3):
+    """Which match of a pattern does `e` denote: 'first' / 'last' / None (not a match selection) / '?' (a selection not understood)."""
+    if isinstance(e, ast.Name):
+        return env.get(e.id)
+    if isinstance(e, ast.IfExp):
+        a, b = _match_selection(ctx, fn, e.body, env, depth), _match_selection(ctx, fn, e.orelse, env, depth)
+        return a if a == b else ("?" if (a or b) else None)
+    if isinstance(e, ast.Subscript) and isinstance(e.value, ast.Call):
+        inner = e.value
+        if call_name(inner) in ("list", "tuple") and inner.args:
+            inner = inner.args[0]
+        if isinstance(inner, ast.Call) and last_attr(inner.func) in ("finditer",):
+            idx = unparse(e.slice)
+            return {"0": "first", "-1": "last"}.get(idx, "?")
+    if isinstance(e, ast.Call):
+        la = last_attr(e.func)
+        if la in ("search", "match") and isinstance(e.func, ast.Attribute):
+            return "first"
+        if call_name(e) == "next" and e.args and isinstance(e.args[0], ast.Call) and last_attr(e.args[0].func) == "finditer":
+            return "first"
+        if depth:
+            try:
+                ts = ctx.resolver(fn).resolve_call(e)
+            except Exception:
+                ts = []
+            if len(ts) == 1 and isinstance(ts[0], FuncInfo):
+                h = ts[0]
+                kinds = set()
+                for r in walk_no_nested(h.node):
+                    if isinstance(r, ast.Return) and r.value is not None:
+                        kinds.add(_match_selection(ctx, h, ctx.resolver(h).expand(r.value), {}, depth - 1))
+                if kinds and kinds != {None}:
+                    return kinds.pop() if len(kinds) == 1 else "?"
+    return None
+
+
+def rule_cut_side(ctx, rep):
+    rep.rule(
+        "R-CUT-SIDE",
+        "sql-parameterization cuts the literal before an injected expression at the quote that opens the parameter and the literal "
+        "after it at the quote that closes it: where the text *after* the selected quote match (`text[m.end():]`) is split off, the "
+        "match is the last one of the piece; where the text *before* it (`text[:m.start()]`) is split off and the rest kept, it is the "
+        "first one.  Both cuts exist and select opposite ends (the two sides are each other's mirror image)",
+        min_instances=2,
+    )
+    cls = ctx.prog.cls(SQL_T)
+    found = []
+    for fn in cls.methods.values():
+        uses_token = any(isinstance(x, ast.Name) and x.id == "parameter_token" for x in walk_no_nested(fn.node))
+        if not uses_token:
+            continue
+
+        def scan(stmts, env):
+            for st in stmts:
+                if isinstance(st, ast.If):
+                    e1, e2 = dict(env), dict(env)
+                    scan(st.body, e1)
+                    scan(st.orelse, e2)
+                    for k in set(e1) | set(e2):
+                        a, b = e1.get(k), e2.get(k)
+                        env[k] = a if a == b else "?"
+                    continue
+                if isinstance(st, (ast.For, ast.While, ast.With, ast.Try)):
+                    for blk in ("body", "orelse", "finalbody"):
+                        scan(getattr(st, blk, []) or [], env)
+                    for h in getattr(st, "handlers", []):
+                        scan(h.body, env)
+                    continue
+                # uses in this statement (with the environment before its own stores)
+                for x in ast.walk(st):
+                    if isinstance(x, ast.Subscript) and isinstance(x.slice, ast.Slice):
+                        lo, hi = x.slice.lower, x.slice.upper
+                        if lo is None and isinstance(hi, ast.Call) and last_attr(hi.func) == "start" and isinstance(hi.func.value, ast.Name) and hi.func.value.id in env:
+                            found.append((fn, x, "before", env[hi.func.value.id], st))
+                        if hi is None and isinstance(lo, ast.Call) and last_attr(lo.func) == "end" and isinstance(lo.func.value, ast.Name) and lo.func.value.id in env:
+                            found.append((fn, x, "after", env[lo.func.value.id], st))
+                if isinstance(st, (ast.Assign, ast.AnnAssign)) and st.value is not None:
+                    for t in (st.targets if isinstance(st, ast.Assign) else [st.target]):
+                        if isinstance(t, ast.Name):
+                            k = _match_selection(ctx, fn, st.value, env)
+                            if k is not None:
+                                env[t.id] = k
+                            else:
+                                env.pop(t.id, None)
+
+        scan(fn.node.body, {})
+    opening = [(fn, x, kind) for fn, x, which, kind, st in found if which == "before" and any(isinstance(y, ast.Name) and y.id == "parameter_token" for y in ast.walk(st))]
+    if not opening:
+        raise AnalysisError("sql-parameterization: the cut `text[:m.start()] + parameter_token` was not found (anchor vanished)")
+    for fn, x, kind in opening:
+        rep.check("R-CUT-SIDE", fn.qname, fn.loc(x), kind == "last", "opening-quote",
+                  f"`{unparse(x)[:50]} + parameter_token` keeps the text before the {kind if kind != '?' else 'ambiguously selected'} quote of the piece: with an "
+                  "earlier quoted constant in the same literal (\"... role = 'admin' AND name = '\" + name) the `?` replaces the wrong literal "
+                  "and SQL text moves into the bound value")
+        if kind == "?":
+            raise AnalysisError(f"{fn.qname}: which match opens the parameter is not understood")
+    n_close = 0
+    for fn, x, which, kind, st in found:
+        # the mirror cut: text after the match is kept (no token on this side), text before it is split off
+        if which == "after" and kind != "last":
+            n_close += 1
+            rep.check("R-CUT-SIDE", fn.qname, fn.loc(x), kind == "first", "closing-quote",
+                      f"`{unparse(x)[:50]}` keeps the text after the {kind} quote of the piece that closes the parameter")
+    if n_close == 0:
+        first_before = [x for fn, x, which, kind, st in found if which == "before" and kind == "first"]
+        if not first_before:
+            fn0 = opening[0][0]
+            rep.check("R-CUT-SIDE", fn0.qname, fn0.loc(), False, "closing-quote",
+                      "no cut at the *first* quote of the piece that closes the parameter: both sides select the same end, so one of them "
+                      "splits at the wrong quote whenever its literal holds more than one")
 
 
 def rule_args(ctx, rep):
@@ -297,4 +506,6 @@ def check(ctx, rep):
     from .c16 import rule_rebuild_keeps_all
 
     rule_rebuild_keeps_all(ctx, rep)
+    rule_extent_all_names(ctx, rep)
+    rule_cut_side(ctx, rep)
     rep.not_covered += ["observational equivalence over programs and runtime values", "SQL parameterisation returning the same rows", "tuple-valued names producing nested tuples in combine_args"]
